@@ -49,8 +49,11 @@ def confirm(name, patch, demo):
             shutil.copytree(os.path.join(REPO, "third_party", "googletest"), os.path.join(wt, "third_party", "googletest"))
         demo_base = "/tmp/mutcheck_%s_demo" % name
         inc = "-I%s/include -DYAKUSHIMA_EPOCH_TIME=10 -DYAKUSHIMA_MAX_PARALLEL_SESSIONS=16 -DYAKUSHIMA_LINUX" % wt
-        san = "-fsanitize=address" if "sanitize=address" in open(demo).read() or os.environ.get("DEMO_ASAN") else ""
+        # DEMO_ASAN=1: the demonstration needs AddressSanitizer; DEMO_DEFS: extra compile flags the agent's README asks for
+        san = "-fsanitize=address" if os.environ.get("DEMO_ASAN") else ""
+        san += " " + os.environ.get("DEMO_DEFS", "")
         cc = "g++ -std=c++17 -O1 -g %s %s %s -o %s -lglog -ltbb -lpthread" % (san, inc, demo, demo_base)
+        out["demo_flags"] = san.strip()
         r = sh(cc)
         out["demo_compiles_clean"] = r.returncode == 0
         if r.returncode == 0:
